@@ -146,57 +146,160 @@ type entryResult struct {
 	WallS float64
 }
 
-func runEntry(l *Loaded, eo EntryOpts, rc RunConfig) *entryResult {
-	res := &entryResult{Opts: eo}
+// exploreAll explores every entry with a shared pool of workers; subtrees are
+// handed between workers as decision prefixes.
+func exploreAll(l *Loaded, todo []EntryOpts, rc RunConfig, workers int) []*entryResult {
+	p := newPool(workers)
+	engines := make([][]*Engine, len(todo))
+	errs := make([][]string, len(todo))
+	var mu sync.Mutex
 	start := time.Now()
-	e, err := NewEngine(l, eo, rc)
-	if err != nil {
-		res.Inconclusive = append(res.Inconclusive, err.Error())
-		return res
+	for i := range todo {
+		p.put(&task{entry: i})
 	}
-	defer e.solver.Close()
-	func() {
-		defer func() {
-			if r := recover(); r != nil {
-				if ee, ok := r.(*engineError); ok {
-					e.noteInconclusive("engine: " + ee.msg)
-				} else {
-					e.noteInconclusive(fmt.Sprintf("engine crash: %v", r))
+	var wg sync.WaitGroup
+	for w := 0; w < workers; w++ {
+		wg.Add(1)
+		go func() {
+			defer wg.Done()
+			var cur *Engine
+			curIdx := -1
+			for {
+				t := p.get()
+				if t == nil {
+					break
 				}
+				if t.entry != curIdx {
+					if cur != nil {
+						cur.solver.Close()
+					}
+					e, err := NewEngine(l, todo[t.entry], rc)
+					if err != nil {
+						mu.Lock()
+						errs[t.entry] = append(errs[t.entry], err.Error())
+						mu.Unlock()
+						cur, curIdx = nil, -1
+						continue
+					}
+					e.pool = p
+					e.entryIdx = t.entry
+					cur, curIdx = e, t.entry
+					mu.Lock()
+					engines[t.entry] = append(engines[t.entry], e)
+					mu.Unlock()
+				}
+				func() {
+					defer func() {
+						if r := recover(); r != nil {
+							if ee, ok := r.(*engineError); ok {
+								cur.noteInconclusive("engine: " + ee.msg)
+							} else {
+								cur.noteInconclusive(fmt.Sprintf("engine crash: %v", r))
+							}
+							p.stop()
+						}
+					}()
+					cur.ExploreTask(t)
+				}()
+			}
+			if cur != nil {
+				cur.solver.Close()
 			}
 		}()
-		e.Explore()
-	}()
-	res.Stats = e.stats
-	res.Covers = e.covers
-	res.Violations = e.violations
-	res.KnownHits = e.knownHits
-	res.Samples = e.samples
-	res.Stubs = e.stubsHit
-	res.Encoded = e.encodedFns
-	res.Inconclusive = e.inconclusive
-	res.Solver.Checks = e.solver.NCheck
-	res.Solver.Sat = e.solver.NSat
-	res.Solver.Unsat = e.solver.NUnsat
-	res.Solver.Unknown = e.solver.NUnknown
-	res.Solver.TimeS = e.solver.Time.Seconds()
-	res.Solver.Errors = e.solver.Errors
-	if len(e.solver.Errors) > 0 {
-		res.Inconclusive = append(res.Inconclusive, "solver error: "+e.solver.Errors[0])
 	}
-	// vacuity: declared cover labels must have been reached
-	if len(res.Violations) == 0 && len(res.Inconclusive) == 0 {
-		for _, c := range eo.Cover {
-			if res.Covers[c] == 0 {
-				res.Inconclusive = append(res.Inconclusive, "VACUOUS: cover label "+c+" never reached")
+	wg.Wait()
+	wall := time.Since(start).Seconds()
+	results := make([]*entryResult, len(todo))
+	for i, eo := range todo {
+		res := &entryResult{Opts: eo, Covers: map[string]int{}, Stubs: map[string]int{}, Encoded: map[string]int{}}
+		res.Stats.Forks = map[string]int{}
+		res.Stats.KnownSeen = map[string]int{}
+		res.Inconclusive = append(res.Inconclusive, errs[i]...)
+		seenInc := map[string]bool{}
+		for _, e := range engines[i] {
+			st := e.stats
+			res.Stats.Paths += st.Paths
+			res.Stats.PathsOK += st.PathsOK
+			res.Stats.Infeasible += st.Infeasible
+			res.Stats.Instrs += st.Instrs
+			res.Stats.Switches += st.Switches
+			res.Stats.AssertQueries += st.AssertQueries
+			res.Stats.AssertUnsat += st.AssertUnsat
+			res.Stats.AssertSat += st.AssertSat
+			res.Stats.FeasQueries += st.FeasQueries
+			res.Stats.OverflowWraps += st.OverflowWraps
+			if st.MaxPathInstrs > res.Stats.MaxPathInstrs {
+				res.Stats.MaxPathInstrs = st.MaxPathInstrs
+			}
+			if st.MaxTrail > res.Stats.MaxTrail {
+				res.Stats.MaxTrail = st.MaxTrail
+			}
+			for k, v := range st.Forks {
+				res.Stats.Forks[k] += v
+			}
+			for k, v := range st.KnownSeen {
+				res.Stats.KnownSeen[k] += v
+			}
+			for k, v := range e.covers {
+				res.Covers[k] += v
+			}
+			for k, v := range e.stubsHit {
+				res.Stubs[k] += v
+			}
+			for k, v := range e.encodedFns {
+				res.Encoded[k] += v
+			}
+			res.Violations = append(res.Violations, e.violations...)
+			for _, k := range e.knownHits {
+				dup := false
+				for _, o := range res.KnownHits {
+					if o.Known == k.Known && o.Label == k.Label {
+						dup = true
+					}
+				}
+				if !dup {
+					res.KnownHits = append(res.KnownHits, k)
+				}
+			}
+			for _, sm := range e.samples {
+				if len(res.Samples) < 3 {
+					res.Samples = append(res.Samples, sm)
+				}
+			}
+			for _, m := range e.inconclusive {
+				if !seenInc[m] {
+					seenInc[m] = true
+					res.Inconclusive = append(res.Inconclusive, m)
+				}
+			}
+			res.Solver.Checks += e.solver.NCheck
+			res.Solver.Sat += e.solver.NSat
+			res.Solver.Unsat += e.solver.NUnsat
+			res.Solver.Unknown += e.solver.NUnknown
+			res.Solver.TimeS += e.solver.Time.Seconds()
+			res.Solver.Errors = append(res.Solver.Errors, e.solver.Errors...)
+		}
+		if len(res.Solver.Errors) > 0 {
+			res.Inconclusive = append(res.Inconclusive, "solver error: "+res.Solver.Errors[0])
+		}
+		if len(res.Violations) > 1 {
+			res.Violations = res.Violations[:1]
+		}
+		halted := p.stopped()
+		if len(res.Violations) == 0 && len(res.Inconclusive) == 0 && !halted {
+			for _, c := range eo.Cover {
+				if res.Covers[c] == 0 {
+					res.Inconclusive = append(res.Inconclusive, "VACUOUS: cover label "+c+" never reached")
+				}
+			}
+			if res.Stats.PathsOK == 0 {
+				res.Inconclusive = append(res.Inconclusive, "VACUOUS: no feasible path completed")
 			}
 		}
-		if res.Stats.PathsOK == 0 {
-			res.Inconclusive = append(res.Inconclusive, "VACUOUS: no feasible path completed")
-		}
+		res.WallS = wall
+		results[i] = res
 	}
-	res.WallS = time.Since(start).Seconds()
-	return res
+	return results
 }
 
 func splitList(s string) []string {
@@ -235,7 +338,7 @@ func main() {
 	outDir := fs.String("out", "", "directory for replay artefacts")
 	solver := fs.String("solver", "z3", "z3 | z3-new | cvc5")
 	timeoutMs := fs.Int("solver-timeout-ms", 20000, "per-query solver timeout")
-	workers := fs.Int("workers", 8, "entries explored in parallel")
+	workers := fs.Int("workers", 16, "parallel workers (each with its own solver)")
 	verbose := fs.Bool("v", false, "verbose")
 	maxSec := fs.Int("max-seconds", 0, "wall-clock limit for the whole run (0 = none)")
 	solverLog := fs.String("solver-log", "", "prefix for SMT-LIB transcripts")
@@ -297,27 +400,13 @@ func main() {
 		fmt.Fprintf(os.Stderr, "INCONCLUSIVE no entries for property=%s tier=%s\n", *property, *tier)
 		os.Exit(2)
 	}
-	results := make([]*entryResult, len(todo))
-	sem := make(chan struct{}, *workers)
-	var wg sync.WaitGroup
-	for i, eo := range todo {
-		wg.Add(1)
-		go func(i int, eo EntryOpts) {
-			defer wg.Done()
-			sem <- struct{}{}
-			defer func() { <-sem }()
-			if *verbose {
-				fmt.Fprintf(os.Stderr, "[gosx] exploring %s\n", eo.Name)
-			}
-			results[i] = runEntry(l, eo, rc)
-			if *verbose {
-				r := results[i]
-				fmt.Fprintf(os.Stderr, "[gosx] %s: %d paths (%d ok, %d infeasible), %d instrs, %d checks, %.1fs\n",
-					eo.Name, r.Stats.Paths, r.Stats.PathsOK, r.Stats.Infeasible, r.Stats.Instrs, r.Solver.Checks, r.WallS)
-			}
-		}(i, eo)
+	results := exploreAll(l, todo, rc, *workers)
+	if *verbose {
+		for _, r := range results {
+			fmt.Fprintf(os.Stderr, "[gosx] %s: %d paths (%d ok, %d infeasible), %d instrs, %d checks, solver %.1fs\n",
+				r.Opts.Name, r.Stats.Paths, r.Stats.PathsOK, r.Stats.Infeasible, r.Stats.Instrs, r.Solver.Checks, r.Solver.TimeS)
+		}
 	}
-	wg.Wait()
 
 	// report
 	exit := 0
